@@ -31,12 +31,12 @@ def fam_labels(case):
     fails = []
     if "y_float" in case:
         y = np.array(case["y_float"], dtype=float).reshape(case.get("shape", (-1,)))
-        miss = np.isnan(y)
+        miss = np.isnan(y) if "missing_label" not in case else (y == float(case["missing_label"]))
     else:
         y = _labels_from_tokens(case["y"], case["missing"])
         miss = np.asarray(case["missing"], dtype=bool)
     fn = case["fn"]
-    got = {"is_labeled": is_labeled, "is_unlabeled": is_unlabeled, "labeled_indices": labeled_indices, "unlabeled_indices": unlabeled_indices}[fn](y, missing_label=NAN)
+    got = {"is_labeled": is_labeled, "is_unlabeled": is_unlabeled, "labeled_indices": labeled_indices, "unlabeled_indices": unlabeled_indices}[fn](y, missing_label=float(case["missing_label"]) if "missing_label" in case else NAN)
     got = np.asarray(got)
     if fn in ("is_labeled", "is_unlabeled"):
         want = ~miss if fn == "is_labeled" else miss
